@@ -486,6 +486,16 @@ func (c *config) Commit() {
 	c.acmeData.Storages().Commit()
 }
 
+// changeAll forgets what was already written and loaded: no data is considered
+// committed, hence haproxy is reloaded instead of dynamically updated, and all
+// the maps and all the configuration files are considered changed.
+func (c *config) changeAll() {
+	c.globalOld = nil
+	c.frontend.Maps = nil
+	c.backends.ChangeAll()
+	c.tcpservices.ChangeAll()
+}
+
 func (c *config) hasCommittedData() bool {
 	// Committed data is data which was already added and synchronized
 	// to a haproxy instance. A `Clear()` clears the committed state.
